@@ -65,7 +65,7 @@ func verifRestartDB(cache internal.FileCacheStorage, strg Storage) *Default {
 // holds a complete state (it is written by full synchronisations only, never replaced
 // by the delta of an incremental one).
 //
-//verif:harness name=H14g-restart tier=quick,thorough bounds="full sync with profile A (device a, linked IP); then 0..2 incremental syncs each delivering another profile B / C with its own device; then a second database is created over the same cache with a storage that must not be asked; lookups by device ID and linked IP" reach=done,restarted-after-incremental maxpaths=20000
+//verif:harness name=H14g-restart tier=quick,thorough bounds="full sync with profile A (device a, linked IP); then 0..2 incremental syncs each delivering another profile B / C with its own device; then a second database is created over the same cache and refreshed once (the local clock runs 5 s ahead of the backend's sync times); lookups by device ID and linked IP" reach=done,restarted-after-incremental maxpaths=20000
 //verif:assume the file cache is an in-memory stub of the FileCacheStorage interface (its encoding is decided by H14c / H14f); clock fixed within the full-sync interval
 func VerifC14Restart() {
 	mk := func(n string, ip string) (*agd.Profile, *agd.Device) {
@@ -77,7 +77,8 @@ func VerifC14Restart() {
 	pb, db := mk("b", "192.0.2.11")
 	pc, dc := mk("c", "192.0.2.12")
 	t0 := time.Unix(1_700_000_000, 0)
-	verifSetClock(t0.UnixNano())
+	// the local clock runs ahead of the backend's snapshot times
+	verifSetClock(t0.Add(5 * time.Second).UnixNano())
 	strg := &verifScriptStorage{resps: []*StorageProfilesResponse{
 		{SyncTime: t0, Profiles: []*agd.Profile{pa}, Devices: []*agd.Device{da}},
 		{SyncTime: t0.Add(time.Minute), Profiles: []*agd.Profile{pb}, Devices: []*agd.Device{db}},
@@ -90,14 +91,20 @@ func VerifC14Restart() {
 	verifAssert("first-refresh-is-a-full-sync", len(strg.reqs) == 1 && strg.reqs[0].SyncTime.IsZero())
 	incr := verifChoice(3)
 	for k := 0; k < incr; k++ {
-		verifSetClock(t0.Add(time.Duration(k+1) * time.Minute).UnixNano())
+		verifSetClock(t0.Add(time.Duration(k+1)*time.Minute + 5*time.Second).UnixNano())
 		verifAssert("incremental-sync-succeeds", first.Refresh(ctx) == nil)
 		verifAssert("later-refresh-is-incremental", !strg.reqs[len(strg.reqs)-1].SyncTime.IsZero())
 	}
 
-	// restart
-	second := verifRestartDB(cache, &verifScriptStorage{})
+	verifAssert("cache-written-by-the-full-sync-with-the-backend's-sync-point", cache.last != nil && cache.last.SyncTime.Equal(t0))
+
+	// restart: the next incremental sync continues from the cached sync point
+	after := &verifScriptStorage{resps: []*StorageProfilesResponse{{SyncTime: t0.Add(10 * time.Minute)}}}
+	second := verifRestartDB(cache, after)
 	verifAssert("cache-loads", second.loadFileCache(ctx) == nil)
+	verifSetClock(t0.Add(10*time.Minute + 5*time.Second).UnixNano())
+	verifAssert("refresh-after-restart-succeeds", second.Refresh(ctx) == nil)
+	verifAssert("restarted-database-continues-from-the-cached-sync-point", len(after.reqs) == 1 && after.reqs[0].SyncTime.Equal(t0))
 	// every device of the last complete state is found as before
 	p, d, err := second.ProfileByDeviceID(ctx, da.ID)
 	verifAssert("restarted-database-finds-the-devices-of-the-cached-state", err == nil && p != nil && d != nil && p.ID == pa.ID && d.ID == da.ID)
